@@ -3,6 +3,8 @@ import Driver.C05
 import Driver.C18
 import Driver.C16
 import Driver.C04
+import Driver.CMD
+import Driver.C06
 open Driver
 
 def dispatch (op : String) (args : List String) (obs : String) : Option Verdict :=
@@ -10,6 +12,8 @@ def dispatch (op : String) (args : List String) (obs : String) : Option Verdict 
   <|> (Driver.C18.handle op args obs)
   <|> (Driver.C16.handle op args obs)
   <|> (Driver.C04.handle op args obs)
+  <|> (Driver.CMD.handle op args obs)
+  <|> (Driver.C06.handle op args obs)
 
 def processLine (line : String) : String :=
   let line := line.trimRight
